@@ -194,6 +194,11 @@ impl Updater {
         segment_1idx: u32,
         bytes: &[u8],
     ) -> Result<SegmentOutcome, ManagerError<T::Error>> {
+        if segment_1idx == 0 {
+            // segments are 1-indexed
+            return Err(SpiFlashError::OutOfBounds.into());
+        }
+
         let flash = RefCell::new(flash);
         let parity = UpdaterMatrix {
             num_blocks: self.reconstruction_state.n,
